@@ -313,6 +313,12 @@ def check_case(cell, elems, ctx):
                 if m is not None and m < mpf("1e-9"):
                     ctx.exclude("decision_margin")
                     continue
+                if op.name in ("equal", "not_equal") and b is not None and cell["sa"] != cell.get("sb") and \
+                        opcheck.vec_close(a, b, mpf("1e-12"), R.scale_of(a, b)):
+                    # the same vector stored in two systems: exact equality is decided by the last bit of a conversion, which the
+                    # scalar and the array kernels need not round alike
+                    ctx.exclude("equality_within_rounding")
+                    continue
                 fail("value", f"element {ipres}: array result {vals[j]} != object result {r}")
                 return
         else:
